@@ -140,7 +140,9 @@ def run_property(prop, tier, seed, replay=None):
 
     # ---- 4. search for a failing input when something broke ----
     searched = False
-    if broken and not witnesses:
+    known_pre = vlib.load_known_findings(prop)
+    unlisted_pre = [w for w in witnesses if not any(P.matches_finding(w, f) for f in known_pre)]
+    if broken and not unlisted_pre:
         searched = True
         try:
             w = P.search(ctx, broken, corr_disagreements)
